@@ -166,10 +166,24 @@ func c01Body(cfg c01Cfg, sc c01Scn, res *string) func(x *sched.Exec) {
 		shutdownCalls := 0
 		psInFlight := 0               // provider Shutdown calls that have not returned yet
 		shutdownFailedBefore := false // an earlier Shutdown call had already returned an error (cut short by its context)
+		var e2 *c01Exp                // scenario R4: the exporter of a second batch processor under the same provider
+		var bsp2 *batchSpanProcessor
 		checkFlush := func(what string, calledAt int, err error) {
 			results = append(results, fmt.Sprintf("%s=%v", what, err))
 			if err != nil {
 				return
+			}
+			if e2 != nil {
+				var missing2 []string
+				for n, at := range endedAt {
+					if at < calledAt && (firstShutdownAt < 0 || at < firstShutdownAt) && (e2.seen[n] == 0 || !e2.returned[n]) {
+						missing2 = append(missing2, n)
+					}
+				}
+				sort.Strings(missing2)
+				if len(missing2) > int(bsp2.dropped) {
+					x.Fail("C01|flush-returned-nil-span-not-exported|provider "+what+"|first of two processors", "provider %s returned nil but span(s) %v were not exported by the processor registered first (dropped=%d, batches=%v)", what, missing2, bsp2.dropped, e2.batches)
+				}
 			}
 			var missing []string
 			for n, at := range endedAt {
@@ -207,6 +221,13 @@ func c01Body(cfg c01Cfg, sc c01Scn, res *string) func(x *sched.Exec) {
 		}
 		var tp *TracerProvider // provider-level ops (RE / PF / PS) go through a real TracerProvider and real spans
 		provider := func() *TracerProvider {
+			if tp == nil && sc.name == "R4" {
+				// two batch processors under one provider, the monitored one registered last: a provider
+				// ForceFlush / Shutdown has to reach every processor
+				e2 = &c01Exp{x: x, maxBatch: cfg.b, seen: map[string]int{}, returned: map[string]bool{}}
+				bsp2 = NewBatchSpanProcessor(e2, opts...).(*batchSpanProcessor)
+				tp = NewTracerProvider(WithSpanProcessor(bsp2), WithSpanProcessor(bsp), WithSampler(AlwaysSample()))
+			}
 			if tp == nil {
 				tp = NewTracerProvider(WithSpanProcessor(bsp), WithSampler(AlwaysSample()))
 			}
@@ -358,6 +379,7 @@ func c01Scenarios(thorough bool) []c01Scn {
 		{"R1", [][]string{{"RE:s1", "RE:s2"}, {"PF"}}, []string{"PS"}}, // real provider, real spans
 		{"R2", [][]string{{"RE:s1", "RE:s2", "PFc"}}, []string{"PS"}},  // provider ForceFlush cut short by its context: an error, or everything exported
 		{"R3", [][]string{{"RE:s1", "RE:s2"}, {"PS"}, {"PS"}}, nil},    // two provider Shutdown calls at once
+		{"R4", [][]string{{"RE:s1", "PF"}}, []string{"PS"}},   // two batch processors under one provider (sequential caller, two workers)
 		{"S6", [][]string{{"S"}, {"S"}, {"E:s1"}}, nil},
 		{"S11", [][]string{{"E:s1", "E:s2", "E:s3", "S"}}, nil}, // sequential: several batches left to the shutdown drain
 	}
@@ -397,6 +419,9 @@ func TestVerifC01(t *testing.T) {
 	var jobs []string
 	for _, sc := range scs {
 		for _, c := range cfgs {
+			if sc.name == "R4" && c.String() != "q2b1" {
+				continue
+			}
 			if (sc.name == "R1" || sc.name == "R2" || sc.name == "R3") && !(c.String() == "q2b1" || (c.String() == "q1b1-blocking" && sc.name != "R3")) {
 				continue // real spans have many more scheduling points: two configurations only
 			}
